@@ -385,13 +385,13 @@ class FakeSnowflakeCursor:
                     self._conn.schema_set = False
 
         if (
-            cmd == "CREATE TABLE"
+            cmd in ("CREATE TABLE", "CREATE VIEW")
             and not create_is_noop
             and (table := transformed.find(exp.Table))
             and (catalog := table.catalog or self._conn.database)
             and (schema := table.db or self._conn.schema)
         ):
-            # a new table doesn't inherit the comment and text lengths of a dropped or replaced table of the same name
+            # a new table or view doesn't inherit the comment and text lengths of a dropped or replaced table of the same name
             self._duck_conn.execute(info_schema.delete_table_ext_sql(catalog, schema, table.name))
 
         if table_comment := cast(tuple[exp.Table, str], transformed.args.get("table_comment")):
